@@ -322,6 +322,15 @@ OkGridBinvox(c) ==
     ELSE IF c.rM4 # c.M4 \/ c.rt4 # c.t4 THEN "binvox_transform"
     ELSE "ok"
 
+\* the same for a mirrored grid (negative scale): the exporter may re-orient the array, so only the
+\* shape and the world positions of the filled cells are compared
+OkGridBinvoxPoints(c) ==
+    LET D == Arr(c.data, c.shape) IN
+    IF c.rshape # c.shape THEN "binvox_shape"
+    ELSE IF Range(c.rpoints4) # {Apply4(c.M4, c.t4, ix) : ix \in FilledIx(D)}
+            \/ Len(c.rpoints4) # Cardinality(FilledIx(D)) THEN "binvox_filled_cells_keep_their_position"
+    ELSE "ok"
+
 (***************************************************************************)
 (* Part 4.  Batch validator                                                *)
 (***************************************************************************)
@@ -350,6 +359,7 @@ Clause(c) ==
       [] c.fn = "grid_maps" -> OkGridMaps(c)
       [] c.fn = "grid_volume" -> OkGridVolume(c)
       [] c.fn = "grid_binvox" -> OkGridBinvox(c)
+      [] c.fn = "grid_binvox_points" -> OkGridBinvoxPoints(c)
       [] OTHER -> "unknown_function"
 
 FnClause(c) ==
